@@ -1,3 +1,4 @@
+pub mod events;
 pub mod framing;
 pub mod hitobject;
 pub mod sections;
